@@ -157,6 +157,12 @@ def laws(req):
                     return f()
                 except ValueError:
                     return "ValueError"
+            if (cats.index(D) + dimstrs.index(s)) % 3 == 0:
+                # the same union-typed annotation, written once before, is the yield type of an old-style decorated generator
+                # function (which marks THOSE annotation objects transparent); writing it again gives annotations of their own
+                u0 = b(lambda: D[Union[A, jax.Array], s])
+                if u0 != "ValueError":
+                    use_elsewhere(u0); stats["union-written-before-in-a-generator"] += 1
             u1 = b(lambda: D[Union[A, jax.Array], s]); u2 = b(lambda: Union[D[A, s], D[jax.Array, s]])
             u3 = b(lambda: D[A | jax.Array, s])
             t1 = b(lambda: D[T1, s]); t1r = b(lambda: D[A, s])
@@ -171,6 +177,28 @@ def laws(req):
                 stats["%s-ok" % name if ok else "%s-FAIL" % name] += 1
                 if not ok:
                     viol.append({"kind": "union-law", "what": "%s law fails for %s[.., %r]" % (name, D.__name__, s)})
+    # D2[Union[X, Y], s] with X, Y themselves array annotations: exactly Union[D2[X, s], D2[Y, s]] -- an error whenever one member nests illegally
+    k3 = 0
+    for D2 in cats:
+        for Da in cats:
+            for Db in cats:
+                k3 += 1
+                if k3 % 7:
+                    continue
+                for inner, outer in (("a", "b"), ("*v a", "b"), ("*v a", "*w")):
+                    lhs = b(lambda: D2[Union[Da[A, inner], Db[A, inner]], outer])
+                    rhs = b(lambda: Union[D2[Da[A, inner], outer], D2[Db[A, inner], outer]])
+                    if "ValueError" in (lhs, rhs):
+                        if lhs != rhs:
+                            viol.append({"kind": "union-of-nested", "what": "%s[Union[%s[nd,%r], %s[nd,%r]], %r]: %s, but Union[%s[%s[..]], %s[%s[..]]] %s" % (
+                                D2.__name__, Da.__name__, inner, Db.__name__, inner, outer, "error" if lhs == "ValueError" else "built", D2.__name__, Da.__name__, D2.__name__, Db.__name__, "is an error" if rhs == "ValueError" else "builds")})
+                        stats["union-of-nested-error"] += 1
+                        continue
+                    pvn = [np.zeros(sh, dtype=d) for sh in ((3, 2), (2,), (4, 3, 2)) for d in (np.float32, np.int8, np.bool_, np.complex64, np.uint8)]
+                    ok = vec(lhs, pvn) == vec(rhs, pvn)
+                    stats["union-of-nested-ok" if ok else "union-of-nested-FAIL"] += 1
+                    if not ok:
+                        viol.append({"kind": "union-of-nested", "what": "%s[Union[%s[nd,%r], %s[nd,%r]], %r] does not accept exactly what the union of the two nestings accepts" % (D2.__name__, Da.__name__, inner, Db.__name__, inner, outer)})
     # scalar ladder: survive only for shapes admitting rank 0 and categories containing them
     scal = {"bool": (bool, True), "int": (int, 3), "float": (float, 1.5), "complex": (complex, 1j)}
     expect_cat = {"bool": {"Bool", "Shaped"}, "int": {"Int", "Integer", "Real", "Num", "Shaped", "Int2", "Int4", "Int8", "Int16", "Int32", "Int64"},
